@@ -104,6 +104,7 @@ def scenarios(ctx):
             a = rng.choice([2, 3, 4, 8, 16])
             gs.append([rng.randrange(a) for _ in range(p)])
         gs.append([15] * 14)
+        gs.append([])                       # the empty genotype (a missing call), restored into a non-empty carrier
         scs.append({"kind": "georand", "genos": gs})
     for _ in range(nrand):
         prs = []
@@ -141,11 +142,18 @@ def scenarios(ctx):
 
 
 # ----------------------------------------------------------------------------------------------
+def _carrier(alleles):
+    k = (len(alleles) * 7 + sum(alleles) + 1) % 5
+    return [[], [1, 1], [0, 1, 2], [0, 1], [(a + 1) % 16 for a in alleles][:14]][k]
+
+
 def _geno_event(alleles, space):
     from whatshap.core import Genotype
     g = Genotype(list(alleles))
     st = g.__getstate__()
-    h = Genotype([])
+    # the state is restored into a CARRIER object whose previous content varies (empty, other ploidy, other alleles):
+    # restoring must overwrite whatever the object held before
+    h = Genotype(_carrier(alleles))
     h.__setstate__(st)
     return {"ev": "Geno", "alleles": list(alleles), "idx": int(g.get_index()), "vec": [int(x) for x in g.as_vector()],
             "ploidy": int(g.get_ploidy()), "back": [int(x) for x in h.as_vector()],
@@ -154,7 +162,7 @@ def _geno_event(alleles, space):
 
 def _fromidx_event(p, idx):
     from whatshap.core import Genotype
-    h = Genotype([])
+    h = Genotype(_carrier([idx % 3, p % 2]))
     h.__setstate__((idx, p))
     return {"ev": "FromIdx", "p": p, "idx": idx, "alleles": [int(x) for x in h.as_vector()], "reidx": int(h.get_index())}
 
